@@ -26,7 +26,7 @@
     durable after the directory fsync; same geometry across restarts. *)
 From Coq Require Import List NArith ZArith Bool Arith Lia.
 From BBS Require Import Common.Sx Persist.PBL Persist.Syncer Persist.Crash Persist.CrashLts
-  Persist.CrashEpochProofs Persist.CrashAllocProofs Persist.CrashOffsetsProofs Index.RecordCodec Index.RecordCodecProofs Run.R02.
+  Persist.CrashEpochProofs Persist.CrashAllocProofs Persist.CrashOffsetsProofs Persist.CrashReuseProofs Persist.CrashSafe Index.RecordCodec Index.RecordCodecProofs Run.R02.
 Import ListNotations.
 Local Open Scope nat_scope.
 
@@ -61,20 +61,33 @@ Theorem seed_in_state_file_only_after_sync : forall g cfg t0 c, creach g cfg med
 Proof. exact CrashEpochProofs.seed_durable_after_sync. Qed.
 Print Assumptions seed_in_state_file_only_after_sync.
 
-(** ---- crash safety, single crash of the first life ----
-    FULL STATEMENT (crash_safe):
-      forall g cfg t0 c, length (g_locs g) < 65536 -> NoDup (g_locs g) -> creach g cfg medium_empty t0 c ->
-      forall n ch slot r i, let m := crash_of medium_empty c n ch in resolves g m slot r i ->
-      exists up l, nth_error (cs_ups c) (r_up r) = Some up /\ up_key up = r_key r /\ up_off up = r_off r /\
-        up_size up = r_size r /\ up_state up = UpFin true /\
-        block_loc (fst (restart (geom g) (m_state m))) i = Some l /\ nth_error (cs_locs c) (up_abs up) = Some l /\
-        forall z, (r_off r <= z < r_off r + r_size r)%Z -> byte_owner (m_data m) l z None = Some (r_up r).
-    Proved here: everything except the last conjunct, split in two theorems:
-    the record designates the allocation of a COMPLETED upload of its key, all
-    of whose data writes are durable in the prefix (they survive every loss
-    choice), and the restarted list resolves it to the device region that
-    upload was allocated in.  See [crash_safe_bytes] at the end of this file for
-    the status of the last conjunct. *)
+(** ---- crash safety: single crash of the first life (a store that started on empty media) ----
+    For every history, every crash point, every loss choice: a record that resolves after the
+    restart (i) designates the allocation of a COMPLETED upload of the record's key, (ii) all data
+    writes of that upload lie below the durable frontier of the log prefix (so they survive every
+    loss choice), (iii) the restarted block list resolves it to the device region that upload was
+    allocated in, below the block's restored write offset, and (iv) on the post-crash data device
+    every byte of the location is owned by a write of THAT upload: no surviving write of another
+    upload covers it (allocations in one block are disjoint; a region is handed out again only
+    after a state file without the block is durable, and then the surviving state file cannot
+    list the block any more). *)
+Theorem crash_safe : forall g cfg t0 c, length (g_locs g) < 65536 -> NoDup (g_locs g) ->
+  creach g cfg medium_empty t0 c ->
+  forall n ch slot r i, resolves g (crash_of medium_empty c n ch) slot r i ->
+  exists up l b,
+    nth_error (cs_ups c) (r_up r) = Some up /\ up_key up = r_key r /\ up_off up = r_off r /\
+    up_size up = r_size r /\ up_state up = UpFin true /\ up_issued up = up_size up /\
+    (forall q l' lo hi, nth_error (cs_log c) q = Some (IoData (r_up r) l' lo hi) ->
+       q < durable_upto (firstn n (cs_log c))) /\
+    nth_error (blocks (fst (restart (geom g) (m_state (crash_of medium_empty c n ch))))) i = Some b /\
+    b_loc b = l /\ nth_error (cs_locs c) (up_abs up) = Some l /\
+    (0 <= r_off r)%Z /\ (0 <= r_size r)%Z /\ (r_off r + r_size r <= b_written b)%Z /\
+    (forall z, (r_off r <= z < r_off r + r_size r)%Z ->
+       byte_owner (m_data (crash_of medium_empty c n ch)) l z None = Some (r_up r)).
+Proof. exact CrashSafe.crash_safe_thm. Qed.
+Print Assumptions crash_safe.
+
+(** the two halves separately (the first without any hypothesis on the geometry) *)
 Theorem crash_safe_partial_durable : forall g cfg t0 c, creach g cfg medium_empty t0 c ->
   forall n ch slot r i, resolves g (crash_of medium_empty c n ch) slot r i ->
   exists up, nth_error (cs_ups c) (r_up r) = Some up /\ up_key up = r_key r /\ up_off up = r_off r /\
@@ -143,7 +156,8 @@ Print Assumptions restored_offsets_cover.
     region of a restored block that was popped and released during the second life — covered by
     the release discipline of the model ([release_regions]: a region returns to the free list only
     when NotifyPersistentStateWritten ran, i.e. after the six directory operations of a state write
-    completed) and by the harness, not yet by a theorem (see crash_safe_bytes below). *)
+    completed; proved for the first life as [region_reused_only_after_durable_state]) and by the
+    harness, not yet by a theorem for a life that starts on non-empty media. *)
 Theorem no_overwrite_after_restart_block : forall g cfg base t0 c, (0 < g_sector g)%Z ->
   creach g cfg base t0 c ->
   forall q k l lo hi, nth_error (cs_log c) q = Some (IoData k l lo hi) ->
@@ -174,6 +188,40 @@ Theorem upload_writes_cover : forall g cfg base t0 c, creach g cfg base t0 c ->
       nth_error (cs_locs c) (up_abs up) = Some l /\ (lo <= z < hi)%Z.
 Proof. intros g cfg base t0 c R k up H. exact (proj2 (CrashOffsetsProofs.upload_writes_tile g cfg base t0 c R k up H)). Qed.
 Print Assumptions upload_writes_cover.
+
+(** a block's region is handed out again only after a state file without it is durable:
+    there is an assignment K of window starts (absolute index of the first listed block) to the
+    state-file writes of the log such that the directory operations form non-interleaved attempts
+    remove/create/write/fsync/rename/dirsync, K is non-decreasing and describes the payloads, and
+    whenever data is written into block a', every earlier block a on the same region lies below the
+    window start of the last state write whose directory fsync precedes that data write. *)
+Theorem region_reused_only_after_durable_state : forall g cfg t0 c, length (g_locs g) < 65536 ->
+  NoDup (g_locs g) -> creach g cfg medium_empty t0 c -> exists K, reuse_witness c K.
+Proof. exact CrashReuseProofs.region_reused_only_after_durable_state. Qed.
+Print Assumptions region_reused_only_after_durable_state.
+
+(** the regions of the list, of the blocks awaiting release, of the free list and of the
+    regions held for open writers partition the device *)
+Theorem regions_partition : forall g cfg t0 c, length (g_locs g) < 65536 -> NoDup (g_locs g) ->
+  creach g cfg medium_empty t0 c ->
+  NoDup (skipn (totalReleased (s_pbl (cs_sys c))) (cs_locs c) ++ toRelease (s_pbl (cs_sys c)) ++ cs_free c ++ cs_held c).
+Proof. intros g cfg t0 c H1 H2 R. exact (proj1 (CrashReuseProofs.regions_distinct g cfg t0 c H1 H2 R)). Qed.
+Print Assumptions regions_partition.
+
+(** ---- repeated crashes ----
+    FULL STATEMENT (repeated_crash), NOT PROVED: for a predicate Safe on media (every record that
+    resolves at a restart on m satisfies (iii)+(iv) of [crash_safe] w.r.t. m's own data, and m's
+    state file lists distinct regions): Safe medium_empty, and
+       Safe base -> creach g cfg base t0 c -> Safe (crash_of base c n ch).
+    What is missing: the ghost upload identifiers ([r_up], the tag of [IoData]) are indices into
+    the upload table of ONE life, so the bytes of an object committed in an earlier life have no
+    name in the next life's statement; the invariants of CrashEpochProofs / CrashAllocProofs
+    ([cs_tbl] = the record writes of the log) are established by [cinit] for [medium_empty] only.
+    Proved for ANY base medium (hence after any number of earlier crashes, whatever they left):
+    [allocations_disjoint], [no_overwrite_after_restart_block] (every write of the new life into a
+    restored block lies at or above its restored write offset), [upload_writes_cover], and for two
+    lives [no_overwrite_after_restart_partial2].  Crashes during/after recovery are exercised by
+    the harness (nested experiments, 3 restarts deep) with the monitor and the model tie. *)
 
 (** ---- non-vacuity: a concrete history (push a block, upload 20 bytes of key 5
     in two device writes, finalize + record in slot 3, one commit cycle of the
